@@ -43,9 +43,12 @@ def run(ctx):
         return
     # positive control: the seed is read somewhere in the verifier (otherwise the rule would pass vacuously)
     seed_reads = 0
-    for e in ctx.eng.bx(v).events():
-        if has_seed(ctx.eng.event_term(v, e)):
-            seed_reads += 1
+    from . import roles
+    nfn = roles.nonce_fns(ctx)
+    for fr in ctx.frames(v, stop=nfn):
+        for e in ctx.eng.bx(fr.body).events():
+            if has_seed(fr.lift(ctx.eng.event_term(fr.body, e))):
+                seed_reads += 1
     rep.floor('R-C10-1', 'events depending on the seed (recovery block)', seed_reads, 3)
 
     # ---- explicit flows into the gate
@@ -66,10 +69,22 @@ def run(ctx):
     cons = msm.consistency_fn(ctx, 'R-C10-1')
     nseedg = 0
     for body in [v] + ([cons] if cons is not None else []):
-        for r in guard_table(ctx, body):
+        rows = guard_table(ctx, body, deep=True)
+        covered = set()          # rows inside a tabled helper call: the table entry of the call speaks for them
+        has_children = {r['parent'] for r in rows if r['parent'] is not None}
+        for ri, r in enumerate(rows):
             gcond = r['guard'].cond
+            if r['parent'] is not None and r['parent'] in covered:
+                covered.add(ri)
+                continue
             if has_seed(gcond):
+                a0 = r['atoms'][0]
+                head0 = a0[1].split('(')[0] if a0[0] == 'succ' else ''
+                if ri in has_children and not (head0 in {x.split('::')[-1] for x in nfn} or head0 == 'assign'):
+                    # a crate-local helper that is not itself tabled: judged by its own guards (spliced below), not as a whole
+                    continue
                 nseedg += 1
+                covered.add(ri)
                 # only the infeasible error edges inside the recovery block are tolerated
                 a = r['atoms'][0]
                 under_some = any(x[0] == 'succ' and 'seed_nonce' in x[1] for x in r['ctx'])
@@ -98,6 +113,20 @@ def run(ctx):
     for bb, what in sites:
         nsite += 1
         deps = [(sw, cond, arms, tg) for (sw, cond, arms, tg) in ctx.path_conditions(v, bb)] + [(sw, cond, sure, maybe) for (sw, cond, sure, maybe) in ctx.control_deps_transitive(v, bb)]
+        # a condition on the *content* of a container (`let Some(c) = challenges[i] else { continue }`) depends, implicitly, on whatever
+        # decided which alternative was stored: the conditions at the sites of the stores
+        extra = []
+        for (sw, cond, arms, tg) in deps:
+            for x in walk(cond):
+                if x.tag == 'ev' and x[4]:
+                    bkey, ebb = x[4][-1]
+                    eb = ctx.facts.by_key.get(bkey)
+                    if eb is None:
+                        continue
+                    for (sw2, c2, a2, t2) in list(ctx.path_conditions(eb, ebb)) + list(ctx.control_deps_transitive(eb, ebb)):
+                        if has_seed(c2) or (eb is v and has_action(c2, v, act)):
+                            extra.append((('store', bkey, sw2), c2, tuple(a2), t2))
+        deps += extra
         seen_sw = set()
         for (sw, cond, arms, tg) in deps:
             if (sw, arms) in seen_sw:
@@ -133,13 +162,16 @@ def run(ctx):
     if len(rl) == 1:
         l = next(iter(rl))
         pushes = [e for e in ctx.eng.bx(v).events_on(('L', l)) if e['decl'].endswith('::push')]
-        somes = [e for e in pushes if any(x.tag == 'adt' and x[1].endswith('Option::Some') for x in [ctx.eng.operand(v, e['bb'], TERM_IDX, e['args'][0])])]
+        somes = []
+        for e in pushes:
+            for val, dbb in ctx.alternatives(v, e['bb'], TERM_IDX, e['args'][0]):
+                if val.tag == 'adt' and val[1].endswith('Option::Some'):
+                    somes.append((e, val, dbb))
         rep.floor('R-C10-4', 'Some(mask) push sites', len(somes), 1)
-        for e in somes:
-            conds = [(canon(c), arms) for (sw, c, arms, tg) in ctx.path_conditions(v, e['bb']) if has_action(c, v, act)]
-            only_verifyonly = len(conds) == 1 and conds[0][0].startswith('discr(') is False or (len(conds) == 1 and 'RecoverOnly' not in conds[0][0])
+        for e, val, dbb in somes:
+            pcs = ctx.path_conditions(v, e['bb']) + (ctx.path_conditions(v, dbb) if dbb != e['bb'] else [])
+            conds = sorted({(canon(c), arms) for (sw, c, arms, tg) in pcs if has_action(c, v, act)})
             rep.check(len(conds) == 1 and 'RecoverOnly' not in conds[0][0], 'R-C10-4', 'R-C10-4/same-code', 'the mask is computed under a single action test (not VerifyOnly), before the RecoverOnly test',
                       'mask computation is conditioned on %s' % conds, ctx.where(v, e['bb']))
-            val = ctx.eng.operand(v, e['bb'], TERM_IDX, e['args'][0])
             rep.check(has_seed(val) and not has_action(val, v, act), 'R-C10-4', 'R-C10-4/mask-depends-on-seed-only', 'the recovered mask depends on the seed and not on the action',
                       'recovered mask: depends on seed=%s, on action=%s' % (has_seed(val), has_action(val, v, act)), ctx.where(v, e['bb']))
